@@ -625,6 +625,9 @@ func C06(run *report.Run) {
 		nilValues(world.IntCfg(2, []int{1, 2, 3, 4, 8}, []interface{}{nil}, nil, B, "none")),
 		// a comparator that answers -3/0/3
 		world.Wide(world.UintCfg(2, urange(1, 4), 2, M, "none")),
+		// values that differ only as nil versus empty (different encodings, distinguishable through Get)
+		world.IntCfg(2, []int{1, 2, 4}, []interface{}{[]byte(nil), []byte{}, []byte{0}}, []byte{}, B, "none"),
+		world.IntCfg(2, []int{1, 2, 4}, []interface{}{[]int(nil), []int{}}, []int{}, M, "none"),
 	}
 	if run.Thorough() {
 		cfgs = append(cfgs, world.UintCfg(2, urange(1, 5), 2, B, "none"), world.UintCfg(3, ulist(1, 2, 3, 4, 6, 9), 1, B, "none"))
